@@ -85,13 +85,18 @@ Theorem exp_spec2_repr_independent A B scale k f :
   field_map2 (gvecs 2 A B g) (exp_spec2 floorK A g scale k (repr A f)) = exp_spec2 floorK B g scale k (repr B f).
 Proof. rewrite !exp_spec2_is_index_space. apply repr_convert. Qed.
 
-(* what the code computes coincides with the specification when the vectors are already cube vectors *)
-Theorem exp_code2_partial ac scale k f :
-  exp_code2 floorK (cube_of ac) g scale k (repr (cube_of ac) f) = exp_spec2 floorK (cube_of ac) g scale k (repr (cube_of ac) f).
+(* what the code computes is the specification, for EVERY axes and every field (not only repr fields) *)
+Theorem exp_code2_is_spec A scale k u : exp_code2 floorK A g scale k u = exp_spec2 floorK A g scale k u.
+Proof. reflexivity. Qed.
+Theorem exp_code2_repr_independent A B scale k f :
+  field_map2 (gvecs 2 A B g) (exp_code2 floorK A g scale k (repr A f)) = exp_code2 floorK B g scale k (repr B f).
+Proof. rewrite !exp_code2_is_spec. apply exp_spec2_repr_independent. Qed.
+(* exponentiating the unconverted tensor is right only when the vectors already are cube vectors *)
+Theorem exp_unconverted2_cube ac scale k f :
+  exp_unconverted2 floorK (cube_of ac) g scale k (repr (cube_of ac) f) = exp_spec2 floorK (cube_of ac) g scale k (repr (cube_of ac) f).
 Proof.
-  unfold exp_code2, exp_spec2. f_equal. f_equal.
+  unfold exp_unconverted2, exp_spec2. f_equal. f_equal.
   replace (axes_ac (cube_of ac)) with ac by (destruct ac; reflexivity).
-  symmetry. replace (cube_of ac) with (cube_of ac) at 1 by reflexivity.
-  rewrite repr_convert. reflexivity.
+  symmetry. rewrite repr_convert. reflexivity.
 Qed.
 End Repr.
